@@ -124,7 +124,7 @@ def handle_failure(pid, r, jobs):
         extra['native'] = r.native_confirmed
         extra['verifier_output'] = r.reason
         return write_replay(pid, r, extra), True
-    tr = core.run_group(r.group, trace=True, workroot=os.path.join(core.BUILD, 'trace'))
+    tr = core.run_group(r.group, trace=True, workroot=os.path.join(core.RUNDIR, 'trace'))
     inputs = {}
     vout = []
     for o in tr.obligations:
@@ -252,7 +252,8 @@ def main():
         r = res[g.name]
         if r.status == 'PROVED' and r.workdir and os.path.isdir(r.workdir) and not os.environ.get('VERIF_KEEP'):
             shutil.rmtree(r.workdir, ignore_errors=True)
-    shutil.rmtree(os.path.join(core.BUILD, 'trace'), ignore_errors=True) if not violations else None
+    if not os.environ.get('VERIF_KEEP'):
+        shutil.rmtree(core.RUNDIR, ignore_errors=True)
     wall = time.time() - t0
     level = P.get('level', 'proof')
     proved_all = (not undecided) and (not violations) and (not knownhits) and n_ob == n_ok and n_ob > 0
